@@ -18,6 +18,9 @@
    largest id of [p] (0 for the empty array). *)
 From Coupe Require Import Lib.Prelude Lib.SFloat Lib.Report Model.KMeansAbs Run.RunC02 Proofs.C02Proofs.
 From Coupe Require Proofs.C02Collect.
+From Coupe Require Import Lib.Rayon Model.KMeans Gen.KMeansGen Proofs.KMeansProofs Proofs.KMeansNoPanic Proofs.KMeansCollect.
+From Coupe Require Proofs.KMeansVec Proofs.KMeansTrace.
+From Coq Require Import Floats.SpecFloat.
 From Coupe Require Properties.C07 Properties.C15.
 From Coupe Require Lib.Graph Model.Vn Model.Fm Proofs.FmProofs Model.Kl Model.ArcSwap Proofs.ArcSwapTerm.
 Import C02Collect.
@@ -207,7 +210,8 @@ Print Assumptions C02_arcswap_exact_share_partial.
 
 (* ------------------------------------------------------------------ KMeans *)
 
-(* PARTIAL: about the abstract model (numeric core = arbitrary oracle): for
+(* (kept from the first round; superseded by C02_kmeans above)
+   PARTIAL: about the abstract model (numeric core = arbitrary oracle): for
    EVERY oracle the output keeps its length and uses only ids of the input.
    What is missing: the arithmetic of k-means (distances, influences, bounds)
    is not modelled; panic-freedom and termination are only what the abstract
@@ -219,6 +223,124 @@ Theorem C02_kmeans_abs_partial : forall o mi mb p p',
   length p' = length p /\ Forall (fun x => In x p) p' /\ Forall (fun x => (x <= list_maxN p)%N) p'.
 Proof. exact kmeans_abs_ids. Qed.
 Print Assumptions C02_kmeans_abs_partial.
+
+(* ------------------------------------------- KMeans, the CONCRETE model *)
+
+(* Model/KMeans.v mirrors k_means.rs and its geometry.rs helpers line by line,
+   generic over the arithmetic; `reds_tree T P` = every rayon reduction over the
+   split tree `T key`, the HashMap of `erode` in the order `P key`; `Some M` =
+   the rotation `obb_to_aabb` (an input: nalgebra's eigen-decomposition is not
+   modelled).  `F64g lg ex` = binary64 with the literals the translator reads from
+   the source, `lg` / `ex` = any functions for f64::log / exp (erode).
+
+   C02 for KMeans, binary64, FULL: for every family of split trees and HashMap
+   order, every rotation matrix with at least one row, D >= 1, EVERY setting
+   (limits, tolerances, erode / hilbert / early-break flags), every weight
+   vector (any length, any values) and every coordinate values: a valid input
+   partition with as many points as ids gives `Ok part'` -- no panic, no raw
+   write outside the array, no fuel exhaustion (the loops are structural on
+   max_iter / max_balance_iter) -- of the same length, with ids of the input only. *)
+Theorem C02_kmeans : forall lg ex T P M D cfg points weights part,
+  (1 <= D)%nat -> (1 <= length M)%nat ->
+  length points = length part ->
+  valid_partition part ->
+  exists part', kmeans (F64g lg ex) (reds_tree (F64g lg ex) T P) (Some M) D cfg points weights part = Ok part'
+    /\ length part' = length part
+    /\ (forall x, In x part' -> In x part)
+    /\ Forall (fun x => (x <= list_maxN part)%N) part'.
+Proof. exact kmeans_c02_f64. Qed.
+Print Assumptions C02_kmeans.
+
+(* the same for every arithmetic in which the distances computed for a point
+   INSIDE the bounding box are comparable (the one `partial_cmp(..).unwrap()`) *)
+Theorem C02_kmeans_any_arithmetic : forall A T P M D cfg,
+  (1 <= D)%nat -> (1 <= length M)%nat ->
+  (forall v w, inside_val A v -> inside_val A w -> k_cmp A v w <> None) ->
+  forall points weights part,
+  length points = length part ->
+  valid_partition part ->
+  exists part', kmeans A (reds_tree A T P) (Some M) D cfg points weights part = Ok part'
+    /\ length part' = length part
+    /\ (forall x, In x part' -> In x part)
+    /\ Forall (fun x => (x <= list_maxN part)%N) part'.
+Proof. exact kmeans_c02_generic. Qed.
+Print Assumptions C02_kmeans_any_arithmetic.
+
+(* every input, every arithmetic, every reduction family (even arbitrary
+   functions), every rotation: an Ok result keeps the length and uses only ids
+   of the input; OutOfFuel is impossible *)
+Theorem C02_kmeans_ids_any_input : forall A R rot D cfg points weights part part',
+  kmeans A R rot D cfg points weights part = Ok part' ->
+  length part' = length part /\ (forall x, In x part' -> In x part).
+Proof. exact kmeans_ids_length. Qed.
+Print Assumptions C02_kmeans_ids_any_input.
+
+Theorem C02_kmeans_terminates : forall A R rot D cfg, reds_total R -> forall points weights part,
+  kmeans A R rot D cfg points weights part <> OutOfFuel.
+Proof. exact kmeans_never_out_of_fuel. Qed.
+Print Assumptions C02_kmeans_terminates.
+
+(* "valid" as the property says it = the count the code checks *)
+Theorem C02_kmeans_valid_partition_count : forall part, valid_partition part ->
+  N.of_nat (length (center_ids part)) = (1 + list_maxN part)%N.
+Proof. exact valid_partition_count. Qed.
+Print Assumptions C02_kmeans_valid_partition_count.
+
+(* the premises are needed: outside them the faithful model panics *)
+Theorem C02_kmeans_unsound_partition_refuted :
+  exists part, ~ valid_partition part /\
+    kmeans Fw (reds_tree Fw T_seq P_id) (Some ex_id) 2 ex_cfg ex_pts ex_ws part = Panic 2.
+Proof. exact kmeans_unsound_partition_refuted. Qed.
+Print Assumptions C02_kmeans_unsound_partition_refuted.
+
+(* more points than ids (outside the contract): the raw write lands outside the
+   array -- undefined behaviour of a safe function; harness/src/bin/km_replay.rs
+   shows the stray write on the real code *)
+Theorem C02_kmeans_more_points_than_ids_refuted :
+  exists points part, valid_partition part /\ (length part < length points)%nat /\
+    kmeans Fw (reds_tree Fw T_seq P_id) (Some ex_id) 2 ex_cfg points ex_ws part = Panic 10.
+Proof. exact kmeans_more_points_than_ids_refuted. Qed.
+Print Assumptions C02_kmeans_more_points_than_ids_refuted.
+
+(* faithfulness of the model's coordinate-wise reductions: for every arithmetic
+   and every split tree, when all vectors have D coordinates, the model's
+   `.sum::<PointND<D>>()` is the tree of VECTOR additions rayon + nalgebra
+   perform (fold from zero(), `[l, r].into_iter().sum()` at the nodes), and
+   its BoundingBox::from_points is the fold_with / reduce_with on pairs of
+   vectors (KMeansVec.tree_vsum_vec, KMeansVec.tree_bbox_vec: the literal forms) *)
+Theorem C02_kmeans_vector_sum_faithful : forall A t D xs, Forall (fun v => length v = D) xs ->
+  tree_vsum A t D xs = KMeansVec.tree_vsum_vec A t D xs.
+Proof. exact KMeansVec.tree_vsum_is_vector_sum. Qed.
+Print Assumptions C02_kmeans_vector_sum_faithful.
+
+Theorem C02_kmeans_bbox_faithful : forall A t D xs, Forall (fun v => length v = D) xs ->
+  tree_bbox A t D xs = KMeansVec.tree_bbox_vec A t D xs.
+Proof. exact KMeansVec.tree_bbox_is_vector_fold. Qed.
+Print Assumptions C02_kmeans_bbox_faithful.
+
+(* the traced run the correspondence evaluates (assignments after every outer
+   iteration, compared with implementation runs of smaller max_iter) ends with
+   the result of the model proper *)
+Theorem C02_kmeans_trace_final : forall A R rot D cfg points weights part,
+  final_of_trace part (kmeans_trace A R rot D cfg points weights part) = kmeans A R rot D cfg points weights part.
+Proof. exact KMeansTrace.kmeans_trace_final. Qed.
+Print Assumptions C02_kmeans_trace_final.
+
+(* the source still has the shape the model mirrors (26 fragments / operators) *)
+Theorem C02_kmeans_source_shape : forallb (fun b => b) km_source_shape = true.
+Proof. exact km_source_shape_ok. Qed.
+Print Assumptions C02_kmeans_source_shape.
+
+(* non-vacuity: the doc example of k_means.rs (rotation = identity, 4 outer
+   iterations of 2 balance iterations), sequential schedule and a split schedule *)
+Example C02_kmeans_nonvacuous :
+  kmeans Fw (reds_tree Fw T_seq P_id) (Some ex_id) 2 ex_cfg ex_pts ex_ws [0;2;2;2;2;2;2;2;1]%N
+    = Ok [0;0;0;2;2;2;1;1;1]%N
+  /\ kmeans Fw (reds_tree Fw ex_tree P_id) (Some ex_id) 2 ex_cfg ex_pts ex_ws [0;2;2;2;2;2;2;2;1]%N
+    = Ok [0;0;0;2;2;2;1;1;1]%N
+  /\ kmeans Fw (reds_chk Fw sum_ok_f64 val_ok_f64 cmp_ok_f64 T_seq P_id) (Some ex_id) 2 ex_cfg ex_pts ex_ws [0;2;2;2;2;2;2;2;1]%N
+    = Ok [0;0;0;2;2;2;1;1;1]%N.
+Proof. exact kmeans_example. Qed.
 
 (* ------------------------------------------------------------ non-vacuity *)
 Example C02_nonvacuous :
